@@ -866,8 +866,16 @@ func (u *Unit) inlinable(fi *fnInfo) bool {
 	n := 0
 	ast.Inspect(fi.decl.Body, func(x ast.Node) bool {
 		switch x.(type) {
-		case *ast.ForStmt, *ast.RangeStmt, *ast.GoStmt, *ast.SelectStmt, *ast.FuncLit:
+		case *ast.ForStmt, *ast.RangeStmt, *ast.GoStmt, *ast.FuncLit:
 			ok = false
+		case *ast.SelectStmt:
+			// a select that only receives (polling a done channel) is plain branching
+			for _, cc := range x.(*ast.SelectStmt).Body.List {
+				if _, send := cc.(*ast.CommClause).Comm.(*ast.SendStmt); send {
+					ok = false
+				}
+			}
+			n++
 		case ast.Stmt:
 			n++
 		}
